@@ -90,6 +90,9 @@ def _inline_one(F, G, bb):
             if unwind is not None:
                 nb["term"] = {"k": "goto", "target": unwind, "sp": sp}
     F.setdefault("absorbed", []).append(G["id"])
+    for sp in [(G.get("file"), G.get("lo"), G.get("hi"))] + [tuple(x) for x in G.get("absorbed_spans", [])]:
+        if sp not in [tuple(x) for x in F.setdefault("absorbed_spans", [])]:
+            F["absorbed_spans"].append(sp)
     F["blocks"][bb]["stmts"].extend(pre)
     F["blocks"][bb]["term"] = {"k": "goto", "target": bo, "sp": sp, "inlined_call": G["id"]}
     F["blocks"].extend(new_blocks)
@@ -107,6 +110,38 @@ def apply(data, known=None):
     unknown = {fid for fid, raw in by_id.items() if fid not in known and raw.get("kind") != "Closure" and "{closure" not in fid}
     if not unknown:
         return 0
+    # A known function that merely moved (a nested fn hoisted to module level, a free function made a method ...) keeps its name:
+    # when exactly one unknown function carries the last path segment of exactly one known function that is gone, it is that
+    # function.  It is given its old id back, so that rules naming it keep finding it (and it is not inlined).
+    gone = {}
+    for k in known:
+        if k not in by_id and "{closure" not in k:
+            gone.setdefault(k.split("::")[-1], []).append(k)
+    cand = {}
+    for u in unknown:
+        cand.setdefault(u.split("::")[-1], []).append(u)
+    renames = {}
+    for seg, us in cand.items():
+        ks = gone.get(seg, [])
+        if len(us) == 1 and len(ks) == 1 and us[0].lstrip("<&").split("::")[0] == ks[0].lstrip("<&").split("::")[0]:
+            renames[us[0]] = ks[0]
+    if renames:
+        for crate, d in data.items():
+            blob = json.dumps(d["fns"])
+            for u, k in renames.items():
+                ju, jk = json.dumps(u)[1:-1], json.dumps(k)[1:-1]
+                blob = blob.replace('"%s"' % ju, '"%s"' % jk).replace('"%s::' % ju, '"%s::' % jk)
+            d["fns"] = json.loads(blob)
+        by_id = {}
+        for crate, d in data.items():
+            for raw in d["fns"]:
+                by_id[raw["id"]] = raw
+        for raw in by_id.values():
+            if raw["id"] in renames.values():
+                raw["moved_from"] = [u for u, k in renames.items() if k == raw["id"]][0]
+        unknown = {fid for fid, raw in by_id.items() if fid not in known and raw.get("kind") != "Closure" and "{closure" not in fid}
+        if not unknown:
+            return 0
     # direct recursion / cycles among unknown functions: never inline those
     calls = {}
     for fid in unknown:
